@@ -129,6 +129,23 @@ def install_api(I):
     def bv_and(interp, a, b, w):
         return SV(z3.simplify(_tobv(a, w) & _tobv(b, w)))
 
+    def bv_sext(interp, a, from_w, to_w):
+        t = _tobv(a, from_w)
+        return SV(z3.simplify(z3.SignExt(to_w - from_w, t))) if to_w > from_w else SV(z3.simplify(z3.Extract(to_w - 1, 0, t)))
+
+    def bv_zext(interp, a, from_w, to_w):
+        t = _tobv(a, from_w)
+        return SV(z3.simplify(z3.ZeroExt(to_w - from_w, t))) if to_w > from_w else SV(z3.simplify(z3.Extract(to_w - 1, 0, t)))
+
+    def bv_add(interp, a, b, w):
+        return SV(z3.simplify(_tobv(a, w) + _tobv(b, w)))
+
+    def bv_sub(interp, a, b, w):
+        return SV(z3.simplify(_tobv(a, w) - _tobv(b, w)))
+
+    def bv_mul(interp, a, b, w):
+        return SV(z3.simplify(_tobv(a, w) * _tobv(b, w)))
+
     def bv_eq(interp, a, b, w):
         return ops.simp(_tobv(a, w) == _tobv(b, w))
 
@@ -184,7 +201,8 @@ def install_api(I):
         mk_opresult=NativeFn(mk_opresult, "mk_opresult"),
         bv_const=NativeFn(bv_const, "bv_const"), bv_shl=NativeFn(bv_shl, "bv_shl"), bv_lshr=NativeFn(bv_lshr, "bv_lshr"),
         bv_or=NativeFn(bv_or, "bv_or"), bv_and=NativeFn(bv_and, "bv_and"), bv_eq=NativeFn(bv_eq, "bv_eq"),
-        bv_ult=NativeFn(bv_ult, "bv_ult"), mk_ssa=NativeFn(mk_ssa, "mk_ssa"),
+        bv_ult=NativeFn(bv_ult, "bv_ult"), mk_ssa=NativeFn(mk_ssa, "mk_ssa"), bv_sext=NativeFn(bv_sext, "bv_sext"), bv_zext=NativeFn(bv_zext, "bv_zext"),
+        bv_add=NativeFn(bv_add, "bv_add"), bv_sub=NativeFn(bv_sub, "bv_sub"), bv_mul=NativeFn(bv_mul, "bv_mul"),
         rt_shape=NativeFn(rt_shape, "rt_shape"),
         rt_stride=NativeFn(rt_stride, "rt_stride"),
         den=NativeFn(den, "den"),
